@@ -546,8 +546,10 @@ func (p *c11Prog) translate(o c11Obs) c11Model {
 	return m
 }
 
+var c11RenameOver bool
+
 func (p *c11Prog) coqCase(id int, o c11Obs, m c11Model, readonly bool) string {
-	return fmt.Sprintf("mkPC %d%%N (mkCfg false %s)\n  %s\n  %s\n  (%s) %s %s\n  %s\n  %s\n  %s %s %s %s",
+	return fmt.Sprintf("mkPC %d%%N (mkCfg "+coqBool(c11RenameOver)+" %s)\n  %s\n  %s\n  (%s) %s %s\n  %s\n  %s\n  %s %s %s %s",
 		id, coqBytes(p.LB), o.S0.coq(), m.Prog, m.Fin, m.Ord, coqBool(p.Signal != ""),
 		coqOps(o.Ops), o.Snap.coq(), coqNs(m.Absent), coqNs(m.AllNone), coqBool(readonly), coqBool(o.Same))
 }
@@ -666,6 +668,18 @@ func runC11(seed int64, tier string, out string) {
 	})
 	all := append(append([]c11Obs{}, obs...), srefs...)
 	all = append(all, sobs...)
+
+	// which COMMIT variant does the tree implement?  rename over the table (repaired) unless some run
+	// removes a table file directly before renaming its temporary file to the same path
+	c11RenameOver = true
+	for _, o := range all {
+		for k := 1; k < len(o.Ops); k++ {
+			if o.Ops[k].Kind == "rename" && o.Ops[k-1].Kind == "remove" && o.Ops[k-1].P == o.Ops[k].Q {
+				c11RenameOver = false
+			}
+		}
+	}
+	meta.Notes = append(meta.Notes, fmt.Sprintf("COMMIT variant detected from the traces: rename_over=%v", c11RenameOver))
 
 	distinct := map[string]bool{}
 	id := 0
